@@ -254,29 +254,53 @@ def Valid (c : Cert) : Prop :=
 end Cert
 
 /-- What the conversion methods of a data collection touch: the values, the header's unit label
-    and the header's data type (kept as the type record). -/
+    and the header's data type (kept as the type record); `immutable` = the collection is one of the
+    `*Immutable` classes of datacollectionimmutable.py. -/
 structure Coll where
   T : UType
   unit : String
   values : List Rat
+  immutable : Bool := false
 
 namespace Coll
 
 /-- `Header.__init__`: the unit must be listed by the data type. -/
 def headerOk (T : UType) (unit : String) : Bool := T.acceptable unit
 
-/-- `convert_to_unit(unit)`: values and label are replaced together; an error leaves both. -/
-def convertToUnit (c : Coll) (unit : String) : Except Err Coll := do
-  let v ← c.T.toUnit c.values unit c.unit
-  pure { c with values := v, unit := unit }
+/-- The conversion itself (what `convert_to_unit` does to a mutable collection): values and label
+    are replaced together, data type and class stay; an error leaves everything. -/
+def convUnit (c : Coll) (unit : String) : Except Err Coll :=
+  match c.T.toUnit c.values unit c.unit with
+  | .error e => .error e
+  | .ok v => .ok { c with values := v, unit := unit }
 
-def convertToIp (c : Coll) : Except Err Coll := do
-  let (v, u) ← c.T.toIp c.values c.unit
-  pure { c with values := v, unit := u }
+def convIp (c : Coll) : Except Err Coll :=
+  match c.T.toIp c.values c.unit with
+  | .error e => .error e
+  | .ok (v, u) => .ok { c with values := v, unit := u }
 
-def convertToSi (c : Coll) : Except Err Coll := do
-  let (v, u) ← c.T.toSi c.values c.unit
-  pure { c with values := v, unit := u }
+def convSi (c : Coll) : Except Err Coll :=
+  match c.T.toSi c.values c.unit with
+  | .error e => .error e
+  | .ok (v, u) => .ok { c with values := v, unit := u }
+
+/-- `convert_to_unit(unit)` (in place).  On an immutable collection it raises AttributeError before
+    looking at the unit and changes nothing (`_ImmutableCollectionBase.convert_to_unit`). -/
+def convertToUnit (c : Coll) (unit : String) : Except Err Coll :=
+  if c.immutable then .error Err.attr else c.convUnit unit
+
+def convertToIp (c : Coll) : Except Err Coll :=
+  if c.immutable then .error Err.attr else c.convIp
+
+def convertToSi (c : Coll) : Except Err Coll :=
+  if c.immutable then .error Err.attr else c.convSi
+
+/-- `to_unit(unit)` / `to_ip()` / `to_si()`: a converted *copy* of the same class (an immutable
+    collection converts through a mutable copy and comes back immutable); the source is untouched
+    (the model is functional: the source value simply persists). -/
+def toUnitCopy (c : Coll) (unit : String) : Except Err Coll := c.convUnit unit
+def toIpCopy (c : Coll) : Except Err Coll := c.convIp
+def toSiCopy (c : Coll) : Except Err Coll := c.convSi
 
 end Coll
 
